@@ -12,8 +12,8 @@ from .c05 import variant
 class C09(ProgramProperty):
     id = "C09"
     theorems = ["C09_empty", "C09_wf", "C09_union", "C09_error", "C09_priority", "C09_singleton", "C09_sub_records",
-                "C09_sub_expand", "C09_grouping", "C09_ci_separated", "C09_chain_refines", "C09_sub_refines"]
-    lean_modules = ["CuriesVerif.Properties.C09"]
+                "C09_sub_expand", "C09_grouping", "C09_ci_separated", "C09_chain_refines", "C09_sub_refines", "C09_union_advertised"]
+    lean_modules = ["CuriesVerif.Properties.C09", "CuriesVerif.Properties.Advertised"]
     rule = ("one case = 1-4 strict converters (default delimiter) where later converters are derived from earlier ones "
             "with planted overlaps (same CURIE prefix with another URI prefix, same URI prefix under another name, "
             "overlap only through synonyms, only up to case incl. ß/ss, a record bridging two earlier records) plus "
